@@ -24,6 +24,8 @@ def strip_namespace(namespace, separator, rules):
     ensures('fresh_list', implies(rules is not None, is_list(result) and fresh(result)))
     ensures('stripped', implies(rules is not None, seq(result) == strip_spec(seq(rules), prefix)))
     ensures('all_str', implies(rules is not None, forall('int', lambda i: implies(0 <= i and i < len(seq(result)), is_str(seq(result)[i])))))
+    replay('stripped', 'strip_namespace_spec')
+    replay('loop0.stripped.preserved', 'strip_namespace_spec')
     loop_invariant(0, 'islist', is_list(stripped) and fresh(stripped))
     loop_invariant(0, 'all_str', forall('int', lambda i: implies(0 <= i and i < len(seq(stripped)), is_str(seq(stripped)[i]))))
     loop_invariant(0, 'stripped', seq(stripped) == strip_spec(take(_seq, _i), prefix))
@@ -87,6 +89,8 @@ def absorb(self, port_namespace, exclude=None, include=None, namespace_options=N
         dhas(src, N) and kept(N, isinstance(dget(src, N), PortNamespace), exclude, include)))
     ensures('selected_are_copied', implies(contains(seq(ret), N), dhas(self._ports, N) and fresh(dget(self._ports, N))
                                            and same_class(dget(self._ports, N), dget(src, N))))
+    ensures('independent', implies(contains(seq(ret), N) and isinstance(dget(src, N), PortNamespace),
+                                   fresh(dget(self._ports, N)._ports) and dget(self._ports, N)._ports is not dget(src, N)._ports))
     ensures('others_in_place', implies(not contains(seq(ret), N), dhas(self._ports, N) == old(dhas(self._ports, N))
                                        and dget(self._ports, N) is old(dget(self._ports, N))))
     loop_invariant(0, 'frame0', self._ports is old(self._ports) and dict_unchanged(self._ports) and is_dict(namespace_options)
@@ -102,10 +106,14 @@ def absorb(self, port_namespace, exclude=None, include=None, namespace_options=N
                                               contains(seq(absorbed_ports), N)))
     loop_invariant(1, 'copied', implies(contains(seq(absorbed_ports), N), dhas(self._ports, N) and fresh(dget(self._ports, N))
                                         and same_class(dget(self._ports, N), dget(src, N))))
+    loop_invariant(1, 'independent', implies(contains(seq(absorbed_ports), N) and isinstance(dget(src, N), PortNamespace),
+                                             fresh(dget(self._ports, N)._ports) and dget(self._ports, N)._ports is not dget(src, N)._ports))
     loop_invariant(1, 'in_place', implies(not contains(seq(absorbed_ports), N), dhas(self._ports, N) == old(dhas(self._ports, N))
                                           and dget(self._ports, N) is old(dget(self._ports, N))))
     loop_modifies(1, contents(self._ports), contents(absorbed_ports))
     loop_item_fact(1, is_str(port_name) and isinstance(port, Port))
     replay('result_is_selection', 'absorb_selection')
+    replay('independent', 'absorb_independent')
+    replay('loop1.independent.preserved', 'absorb_independent')
     replay('loop1.sel_sound.preserved', 'absorb_selection')
     replay('loop1.sel_complete.preserved', 'absorb_selection')
